@@ -46,8 +46,8 @@ func makeSchedule(idx int) schedule {
 	thorough := ev.Tier() == "thorough"
 	sc := schedule{Idx: idx, FaultPhases: ev.Pick(3, 5), MaxTxs: ev.Pick(60, 110)}
 	c := clusterCfg{N: 4, BlockTime: blockTime, KeyLabel: fmt.Sprintf("c19-%d-%d", ev.Seed(), idx)}
-	if thorough && idx%3 == 2 {
-		c.N = 7
+	if thorough && idx%3 == 2 && idx%12 != 2 {
+		c.N = 7 // idx%12 in {5, 8, 11}; 8 also has the N+2 committee
 	}
 	c.SRIH = idx%2 == 1
 	c.ExtPool = idx%3 == 0
